@@ -191,6 +191,17 @@ class Executor(Engine):
         results = []
         ctx = self.new_ctx(st, s.lineno)
         self.hint_literal(s.value, s.targets[0])
+        t0 = s.targets[0]
+        if isinstance(t0, ast.Attribute) and isinstance(t0.value, ast.Name) and isinstance(s.value, (ast.Dict, ast.List)) \
+                and isinstance(getattr(st.env.get(t0.value.id), 'ty', None), TRec) and t0.attr in st.env[t0.value.id].ty.fields:
+            # x.field = {} / []: the empty literal has the field's declared type
+            fty = st.env[t0.value.id].ty.fields[t0.attr]
+            if isinstance(fty, TOpt):
+                fty = fty.inner
+            if isinstance(fty, TDict):
+                s.value._dict_ty = fty
+            if isinstance(fty, (TList, TSet)):
+                s.value._elem_ty = fty.elem
         v_ = s.value
         if isinstance(v_, ast.Lambda) and len(s.targets) == 1 and isinstance(s.targets[0], ast.Name):
             # name = lambda ..: kept as syntax; a later call name(args) is the body with the parameters bound
@@ -388,6 +399,27 @@ class Executor(Engine):
                                    z3.Store(dt.at(base.t), k.t, coerce(val, dt.v).t)))
                 st2.env[name] = coerce(newd, obase.ty)
                 return st2
+        if isinstance(tgt, ast.Subscript) and isinstance(tgt.value, ast.Attribute) and isinstance(tgt.value.value, ast.Name) \
+                and isinstance(getattr(st.env.get(tgt.value.value.id), 'ty', None), TRec) \
+                and tgt.value.attr in st.env[tgt.value.value.id].ty.fields:
+            # x.field[k] = v on a dictionary-valued (possibly Optional) record field
+            name, fld = tgt.value.value.id, tgt.value.attr
+            owner = st.env[name]
+            fty = owner.ty.fields[fld]
+            base = V(fty, owner.ty.get(fld, owner.t))
+            ctx = self.new_ctx(st, line)
+            idx = self.ev.ev(tgt.slice, ctx)
+            inner = base
+            if isinstance(fty, TOpt) and isinstance(fty.inner, TDict):
+                ctx.exc('TypeError', fty.is_none(base.t))
+                inner = V(fty.inner, fty.val(base.t))
+            if isinstance(inner.ty, TDict):
+                dt = inner.ty
+                k = coerce(idx, dt.k)
+                newd = V(dt, dt.mk(z3.Store(dt.has(inner.t), k.t, True), z3.Store(dt.at(inner.t), k.t, coerce(val, dt.v).t)))
+                st2 = self.commit(st, ctx, results).fork()
+                st2.env[name] = V(owner.ty, owner.ty.set(fld, owner.t, coerce(newd, fty).t))
+                return st2
         raise OutOfSubset(f'assignment target {ast.unparse(tgt)} at line {line}')
 
     def st_Delete(self, s, st):
@@ -438,6 +470,30 @@ class Executor(Engine):
             st2 = self.commit(st, ctx, results).fork()
             st2.env[nm] = V(dt, dt.mk(z3.Store(dt.has(d.t), k.t, True), z3.Store(dt.at(d.t), k.t, newl)))
             return results + [(st2, None)]
+        if meth == 'extend' and isinstance(recv, ast.Subscript) and isinstance(recv.value, ast.Attribute) and isinstance(recv.value.value, ast.Name) \
+                and isinstance(getattr(st.env.get(recv.value.value.id), 'ty', None), TRec) \
+                and recv.value.attr in st.env[recv.value.value.id].ty.fields and len(call.args) == 1:
+            # x.field[k].extend(L) on a record field holding a dictionary of opaque lists: the entry at k becomes CAT(entry, L)
+            name, fld = recv.value.value.id, recv.value.attr
+            owner = st.env[name]
+            fty = owner.ty.fields[fld]
+            base = V(fty, owner.ty.get(fld, owner.t))
+            inner = base
+            if isinstance(fty, TOpt) and isinstance(fty.inner, TDict):
+                ctx.exc('TypeError', fty.is_none(base.t))
+                inner = V(fty.inner, fty.val(base.t))
+            if isinstance(inner.ty, TDict) and isinstance(inner.ty.v, TAbs) and inner.ty.v.name in getattr(self, 'opaque_lists', ()):
+                dt = inner.ty
+                k = coerce(self.ev.ev(recv.slice, ctx), dt.k)
+                arg = self.ev.ev(call.args[0], ctx)
+                if arg.ty != dt.v:
+                    raise OutOfSubset(f'.extend argument {arg.ty} at line {line}')
+                ctx.exc('KeyError', z3.Not(z3.Select(dt.has(inner.t), k.t)))
+                cat = z3.Function('spec_CAT_' + dt.v.name, dt.v.sort(), dt.v.sort(), dt.v.sort())
+                newd = V(dt, dt.mk(dt.has(inner.t), z3.Store(dt.at(inner.t), k.t, cat(z3.Select(dt.at(inner.t), k.t), arg.t))))
+                st2 = self.commit(st, ctx, results).fork()
+                st2.env[name] = V(owner.ty, owner.ty.set(fld, owner.t, coerce(newd, fty).t))
+                return results + [(st2, None)]
         field = None
         if isinstance(recv, ast.Attribute) and isinstance(recv.value, ast.Name) and recv.value.id in st.env \
                 and isinstance(st.env[recv.value.id].ty, TRec) and recv.attr in st.env[recv.value.id].ty.fields:
@@ -461,7 +517,7 @@ class Executor(Engine):
         base = owner if field is None else V(owner.ty.fields[field], owner.ty.get(field, owner.t))
         new = None
         obase = base
-        if isinstance(base.ty, TOpt) and (isinstance(base.ty.inner, (TList, TSet, TBag)) or
+        if isinstance(base.ty, TOpt) and (isinstance(base.ty.inner, (TList, TSet, TBag, TDict)) or
                                          (isinstance(base.ty.inner, TAbs) and base.ty.inner.name in getattr(self, 'opaque_lists', ()))):
             ctx.exc('AttributeError', base.ty.is_none(base.t))
             base = V(base.ty.inner, base.ty.val(base.t))
@@ -510,6 +566,12 @@ class Executor(Engine):
                 new = V(base.ty, cat(base.t, args[0].t))
         elif isinstance(base.ty, TDict):
             dt = base.ty
+            if meth == 'pop' and len(args) in (1, 2):
+                # d.pop(k[, default]) as a statement: d loses k (KeyError without a default when k is absent)
+                k_ = coerce(args[0], dt.k).t
+                if len(args) == 1:
+                    ctx.exc('KeyError', z3.Not(z3.Select(dt.has(base.t), k_)))
+                new = V(dt, dt.mk(z3.Store(dt.has(base.t), k_, False), dt.at(base.t)))
             if meth == 'setdefault' and len(args) == 2:
                 # d.setdefault(k, v) as a statement: d[k] = v unless k is already a key
                 k_ = coerce(args[0], dt.k).t
